@@ -360,6 +360,66 @@ Definition wfb (t : topo) : bool :=
   && nodupb Nat.eqb (map (fun n => a_id (fst n)) (all_nodes (t_forest t))).
 
 (* ------------------------------------------------------------------------- *)
+(** ** One [Composition] object across several [connect()] attempts
+
+    [Composition._adapters] is created once in [__init__] (schedule.py 122) and
+    [_collect_adapters] (321-326) adds to it at the beginning of every [connect()] (190), before the
+    validation.  A [connect()] that is rejected by the validation leaves the components untouched
+    and [_is_connected = False] (212 is not reached), so the wiring can be repaired (links can only
+    be added) and [connect()] called again.  [metadata] (477-478, 507-525) iterates the remembered
+    set and reads [ada.targets] of each remembered adapter at that moment. *)
+
+Fixpoint dedupe_ids (seen l : list nat) : list nat :=
+  match l with
+  | [] => []
+  | x :: r => if existsb (Nat.eqb x) seen then dedupe_ids seen r
+              else x :: dedupe_ids (x :: seen) r
+  end.
+
+(** the set after one more [_collect_adapters]: what was remembered plus what is found now *)
+Definition collect_ids (prev : list nat) (t : topo) : list nat :=
+  dedupe_ids [] (prev ++ map (fun n => a_id (fst n)) (collect_raw t)).
+
+(** the adapter object with identity [id], with its [targets] as they are in [f] *)
+Definition find_node (f : list rtree) (id : nat) : option anode :=
+  find (fun n => Nat.eqb (a_id (fst n)) id) (all_nodes f).
+
+Record cstate := mkS { s_connected : bool; s_adapters : list nat }.
+Definition fresh : cstate := mkS false [].
+
+Definition connect_st (s : cstate) (t : topo) : cstate * (list event * result) :=
+  if s_connected s then (s, ([], RRaised StatusError))
+  else
+    let ids := collect_ids (s_adapters s) t in
+    let '(ev, r) := validate_composition t in
+    match r with
+    | RRaised e => (mkS false ids, (ev, RRaised e))
+    | RDone => (mkS true ids, (ev ++ map EvConnect (seq 0 (n_comps t)), RDone))
+    end.
+
+Definition direct_links (t : topo) : list link :=
+  flat_map (fun k => match find_output (t_forest t) (fst k) (snd k) with
+                     | Some (Some o, ts) => out_links o ts
+                     | _ => []
+                     end) (out_keys t).
+
+Definition metadata_links_of (s : cstate) (t : topo) : list link :=
+  direct_links t
+  ++ flat_map (fun id => match find_node (t_forest t) id with
+                         | Some n => node_links n
+                         | None => []
+                         end) (s_adapters s).
+
+(** adapters below the outputs of the composition *)
+Definition owned_nodes (t : topo) : list anode :=
+  flat_map (fun rt => flat_map tnodes (snd rt)) (filter owned_root (t_forest t)).
+
+(** every remembered adapter is (still) below an output of the composition; true whenever the
+    wiring was only extended since the adapters were collected and the extended wiring is valid *)
+Definition remembered_ok (s : cstate) (t : topo) : bool :=
+  forallb (fun id => existsb (Nat.eqb id) (map (fun n => a_id (fst n)) (owned_nodes t))) (s_adapters s).
+
+(* ------------------------------------------------------------------------- *)
 (** ** Correspondence interface *)
 
 Definition check_id_eqb (a b : check_id) : bool :=
@@ -490,4 +550,41 @@ Definition c19_check (x : c19_case * c19_obs) : bool :=
   && match ob_links o with
      | None => true
      | Some l => match ob_links m with Some lm => perm_eqb link_eqb lm l | None => false end
+     end.
+
+(** a first attempt on [t1] and - optionally - a second attempt after the wiring was extended to [t2] *)
+Definition c19_case2 : Type := topo * option topo.
+Definition c19_obs2 : Type := c19_obs * option c19_obs.
+
+Definition retry_model (t1 t2 : topo) : c19_obs :=
+  let s1 := fst (connect_st fresh t1) in
+  let '(vev, vr) := validate_composition t2 in
+  let '(s2, (cev, cr)) := connect_st s1 t2 in
+  mkObs vr vev cr (upto_connect cev)
+        (match cr with RDone => Some (metadata_links_of s2 t2) | RRaised _ => None end).
+
+Definition c19_model2 (c : c19_case2) : c19_obs2 :=
+  (c19_model (fst c), match snd c with Some t2 => Some (retry_model (fst c) t2) | None => None end).
+
+Definition retry_check (t1 t2 : topo) (o : c19_obs) : bool :=
+  let s1 := fst (connect_st fresh t1) in
+  let m := retry_model t1 t2 in
+  wfb t2
+  && (match validate t2 with VOk => remembered_ok s1 t2 | VErr _ => true end)
+  && result_eqb (ob_validate m) (ob_validate o)
+  && events_agree t2 (ob_vevents m) (ob_vevents o)
+  && result_eqb (ob_connect m) (ob_connect o)
+  && (if s_connected s1 then list_eqb event_eqb [] (ob_cevents o)
+      else cevents_agree t2 (ob_cevents m) (ob_cevents o))
+  && match ob_links o with
+     | None => true
+     | Some l => match ob_links m with Some lm => perm_eqb link_eqb lm l | None => false end
+     end.
+
+Definition c19_check2 (x : c19_case2 * c19_obs2) : bool :=
+  c19_check (fst (fst x), fst (snd x))
+  && match snd (fst x), snd (snd x) with
+     | Some t2, Some o2 => retry_check (fst (fst x)) t2 o2
+     | _, None => true            (* no second attempt was made *)
+     | None, Some _ => false
      end.
